@@ -414,16 +414,22 @@ impl<Store: StorageData> DbImpl<Store> {
         f: impl FnOnce(&mut TransactionMut<Store>) -> Result<T, E>,
     ) -> Result<T, E> {
         let id = self.storage.transaction();
-        let mut transaction = TransactionMut::new(&mut *self);
-        let result = f(&mut transaction);
-
-        let end = if result.is_ok() {
-            transaction.commit()
-        } else {
-            transaction.rollback()
+        let result = {
+            let mut transaction = TransactionMut::new(&mut *self);
+            f(&mut transaction)
         };
 
-        self.storage.commit(id)?;
+        let end = if result.is_ok() {
+            // the transaction is only done once the storage accepted it
+            match self.storage.commit(id) {
+                Ok(()) => self.commit(),
+                Err(error) => self.rollback().and(Err(error)),
+            }
+        } else {
+            let rollback = self.rollback();
+            self.storage.commit(id).and(rollback)
+        };
+
         end?;
 
         result
